@@ -62,6 +62,9 @@ class Contract:
         self.relies_ = []         # [(Clause, reason)] assumed at call sites only
         self.abstract_ = []       # (statement text prefix, reason): statements not modelled
         self.checks_ = []         # (statement text prefix, Clause): assertion before a statement
+        self.ghost_before_ = []   # (statement text prefix, ghost local name, spec expr)
+        self.cuts_ = []           # (statement text prefix, [Clause]): intermediate assertion +
+                                  # generalisation point (the rest is explored once per shape)
         self.ghost_entry_ = []    # (ghost name, spec expr): ghost assignments at function entry
         self.ret_cases = None     # [(label, guard spec expr over the pre-state, Ty)]
 
@@ -84,6 +87,19 @@ class Contract:
         starts with `stmt_prefix` is about to execute."""
         self.checks_.append((' '.join(stmt_prefix.split()),
                              Clause(label, src, props or self.props)))
+        return self
+
+    def cut(self, stmt_prefix, invariants, props=None):
+        """Intermediate assertion before a statement where many paths join: every arriving path
+        proves the invariants; the code from there on is verified once, from an arbitrary state
+        satisfying the function's entry assumptions, its frame and these invariants."""
+        self.cuts_.append((' '.join(stmt_prefix.split()),
+                           [Clause(l, s, props or self.props) for l, s in invariants]))
+        return self
+
+    def ghost_before(self, stmt_prefix, name, src):
+        """Ghost local: `name = <spec expr>` evaluated just before the matching statement."""
+        self.ghost_before_.append((' '.join(stmt_prefix.split()), name, src))
         return self
 
     def ghost_entry(self, name, src):
